@@ -1,8 +1,8 @@
 #!/bin/bash
-# try_seed.sh <seed-name> <Cxx> [<Cxx>...]  : apply /verif/seeded/<name>/patch.diff to /repo, run the quick checks, revert.
+# try_seed.sh <seed-name | path/to/patch.diff> <Cxx> [<Cxx>...]  : apply the patch to /repo, run the quick checks, revert.
 set -u
 NAME="$1"; shift
-P=/verif/seeded/$NAME/patch.diff
+if [ -f "$NAME" ]; then P="$NAME"; else P=/verif/seeded/$NAME/patch.diff; fi
 git -C /repo status --porcelain | grep -q . && { echo "/repo not clean"; exit 2; }
 git -C /repo apply --check "$P" 2>/dev/null || { echo "--- $NAME: patch does not apply to the current tree"; exit 2; }
 git -C /repo apply "$P"
